@@ -46,6 +46,24 @@ theorem C19_lookup_order (s : Studio) (h : s.recordingIds = []) :
   rw [hc]
   exact ⟨rfl, dedupFirst_nodup _, fun k => mem_dedupFirst k _⟩
 
+/-- Explicit ids are played as given, whatever the lookup properties say (their limit, `skip_incomplete`, the stored
+recordings they would select): the run with explicit ids is the same run under any other lookup properties and over any
+other cassette content. -/
+theorem C19_explicit_ignores_lookup (s : Studio) (h : Explicit s) (p : Props) (stored : List Rec) :
+    play { s with props := p, stored := stored } = play s := by
+  have h' : Explicit { s with props := p, stored := stored } := h
+  unfold play
+  rw [groups_explicit s h, groups_explicit _ h']
+  simp only [List.map_map]
+  apply List.map_congr_left
+  intro k hk
+  obtain ⟨i, hi, hik⟩ := List.mem_map.mp ((mem_sortedCats k _).mp hk)
+  have hmem : i ∈ s.recordingIds.filter (fun i => s.catOf i == k) := List.mem_filter.mpr ⟨hi, by simp [hik]⟩
+  simp only [Function.comp, playCategory, runEq]
+  cases hf : s.recordingIds.filter (fun i => s.catOf i == k) with
+  | nil => rw [hf] at hmem; exact absurd hmem (by simp)
+  | cons a as => simp [idsFor]
+
 /-- the recording ids played for the group `g` of category `k` -/
 def playedIds (s : Studio) (g : Cat × Option (List Id)) : List Id := idsFor s g.1 g.2
 
@@ -179,6 +197,9 @@ example : ModeIndependent demo := by
   · cases h
   · cases h; rfl
 example : (play demo).map (·.1) = [0, 1, 2] := by decide
+/-- a lookup limit of 0 and an empty cassette change nothing about a run with explicit ids -/
+example : play { demo with props := ⟨false, some 0⟩, stored := [] } = play demo :=
+  C19_explicit_ignores_lookup demo (by simp [Explicit, demo]) _ _
 example : (groups demo).map (playedIds demo) = [[0, 3], [4, 7], [5]] := by decide
 example : (groups { demo with recordingIds := [] }).map (playedIds { demo with recordingIds := [] }) = [[7], [0]] := by decide
 
